@@ -278,7 +278,7 @@ def main():
     rnd = random.Random(run.seed + 18)
     jobs = []
     for fam in ('hill', 'shekel'):
-        for fn in (sorted(rnd.sample(range(1000), 20)) if quick else range(1000)):
+        for fn in (sorted(set(rnd.sample(range(1000), 20)) | {0, 1, 998, 999}) if quick else range(1000)):      # the ends of the argument range always
             jobs.append((table_job, (fam, fn)))
     for a in range(0, 1000, 250):
         jobs.append((metadata_job, ('hill', list(range(a, a + 250)))))
